@@ -25,6 +25,7 @@
 // armed at the ponderhit).
 //
 // -suite c14 (result "uci/c14", property C14; no Lean driver): see suiteC14 below.
+// -suite goargs (result "uci/goargs", property C06; driver drv_misc): see suiteGoargs below.
 //
 // The harness is reactive: go (and every other non-async line) is only written after the previous
 // bestmove was read; stop, isready, ponderhit, quit and EOF are written at swept points.
@@ -1761,6 +1762,348 @@ func suiteC14(ctx *common.Ctx, workers int) {
 	res.Write(ctx)
 }
 
+// ---------------------------------------------------------------------------------------------
+// -suite goargs: what `handleGo` hands to search.Go for arbitrary `go` argument lists (property C06:
+// the limits of every UCI-started search; Lean model Model/UciGo.lean through `drv_misc goargs`).
+//
+// Every case is one `go <tokens>` line sent to the real driver (either colour to move, Ponder option
+// and debug flag on or off) with a mock search that records the options it is called with and
+// returns at once.  Exactly one of two things happens for a go: the mock is called, or the driver
+// writes "argument missing" to its error stream; the harness waits for either.  Compared with the
+// model: the outcome class and every recorded option (Depth, Nodes, SoftTime present? value;
+// PonderHit / Stop / Output != nil; Debug).  Asserted in Go directly: a depth option lies in
+// [1, MaxPlies]; SoftNodes is never set.
+
+type goargsCase struct {
+	black, ponder, debug bool
+	args                 []string
+	lex                  lexT
+	kind                 string // generator: boundary | pairs | soup
+}
+
+func (c *goargsCase) ops() []string {
+	return []string{fmt.Sprintf("black=%v Ponder=%v debug=%v", c.black, c.ponder, c.debug),
+		fmt.Sprintf("send:%q", c.lex.apply(strings.Join(append([]string{"go"}, c.args...), " ")))}
+}
+
+func (c *goargsCase) req() string {
+	return fmt.Sprintf("goargs %s %s %s %s", b01(c.black), b01(c.ponder), b01(c.debug), strings.Join(c.args, " "))
+}
+
+func b01(b bool) string {
+	if b {
+		return "1"
+	}
+	return "0"
+}
+
+var goKeywords = []string{"wtime", "btime", "winc", "binc", "depth", "nodes", "movetime"}
+var goOtherWords = []string{"ponder", "ponder", "infinite", "searchmoves", "mate", "e2e4", "Depth", "DEPTH", "depth=5", "wtime:", "Ponder", "go", "stop", "-", "+"}
+
+// boundary numbers and non-numbers (strconv: [+-]?[0-9]+ within int64, everything else is an error)
+var goNumbers = []string{
+	"0", "1", "2", "-1", "-0", "+0", "+1", "-5", "5", "007", "-007", "63", "64", "65", "100", "127", "128", "129", "200", "255", "256", "257",
+	"-127", "-128", "-129", "-200", "-256", "1000", "1023", "1024", "32767", "32768", "65535", "65536", "2147483647", "2147483648", "-2147483648",
+	"-2147483649", "4294967295", "4294967296", "4294967360", "9223372036854775807", "9223372036854775808", "-9223372036854775808",
+	"-9223372036854775809", "18446744073709551615", "18446744073709551616", "18446744073709551680", "99999999999999999999999999",
+	"-99999999999999999999999999", "000000000000000000000000000064", "+9223372036854775807", "+9223372036854775808",
+	"x", "", "5x", "x5", "1_000", "0x10", "0b11", "0o7", "1e3", "5.0", "5.", ".5", "--5", "+-5", "-+5", "5-", "5+", "1,000",
+	"１２", "٣", "५", "5²", "−5", "NaN", "inf", "true", "nil",
+}
+
+func genNumber(rng *rand.Rand) string {
+	switch r := rng.IntN(12); {
+	case r < 4:
+		for {
+			if n := goNumbers[rng.IntN(len(goNumbers))]; n != "" {
+				return n
+			}
+		}
+	case r < 6:
+		return strconv.Itoa(rng.IntN(300) - 100)
+	case r >= 10:
+		return strconv.Itoa(rng.IntN(70))
+	case r < 7:
+		return strconv.FormatInt(int64(rng.Uint64()), 10)
+	case r < 8: // around a power of two
+		k := uint(rng.IntN(64))
+		return strconv.FormatInt(int64(uint64(1)<<k)+int64(rng.IntN(5))-2, 10)
+	case r < 9: // digit string of any length, optional sign
+		var sb strings.Builder
+		sb.WriteString(pick(rng, "", "", "-", "+"))
+		for k := 1 + rng.IntN(24); k > 0; k-- {
+			sb.WriteByte(byte('0' + rng.IntN(10)))
+		}
+		return sb.String()
+	default:
+		return strconv.Itoa(rng.IntN(100000))
+	}
+}
+
+func genGoargs(rng *rand.Rand) goargsCase {
+	c := goargsCase{black: rng.IntN(2) == 0, ponder: rng.IntN(2) == 0, debug: rng.IntN(4) == 0, lex: genLex(rng)}
+	if rng.IntN(2) == 0 {
+		c.lex = lexT{}
+	}
+	if rng.IntN(2) == 0 {
+		// keyword/value pairs in any order and multiplicity, sometimes cut short or with stray words
+		c.kind = "pairs"
+		for k := rng.IntN(6); k > 0; k-- {
+			switch r := rng.IntN(12); {
+			case r < 1:
+				c.args = append(c.args, pick(rng, goOtherWords...))
+			case r < 2:
+				c.args = append(c.args, pick(rng, goKeywords...)) // keyword without value: reads the next token
+			default:
+				c.args = append(c.args, pick(rng, goKeywords...), genNumber(rng))
+			}
+		}
+		if rng.IntN(3) == 0 { // `ponder` anywhere (also between a keyword and its value)
+			k := rng.IntN(len(c.args) + 1)
+			c.args = append(c.args[:k:k], append([]string{"ponder"}, c.args[k:]...)...)
+		}
+		if rng.IntN(8) == 0 {
+			c.args = append(c.args, pick(rng, goKeywords...)) // value missing at the end
+		}
+	} else {
+		c.kind = "soup"
+		for k := rng.IntN(9); k > 0; k-- {
+			switch r := rng.IntN(10); {
+			case r < 4:
+				c.args = append(c.args, pick(rng, goKeywords...))
+			case r < 5:
+				c.args = append(c.args, pick(rng, goOtherWords...))
+			default:
+				c.args = append(c.args, genNumber(rng))
+			}
+		}
+	}
+	return c
+}
+
+type goargsRec struct {
+	depth, nodes, soft, softNodes string // "-" = option absent
+	depthV                        int
+	depthSet                      bool
+	ponder, stop, out, debug      bool
+}
+
+type goargsMock struct{ ch chan goargsRec }
+
+func (m *goargsMock) Clear()       {}
+func (m *goargsMock) ResizeTT(int) {}
+
+func (m *goargsMock) Go(_ *board.Board, opts ...search.Option) (Score, move.Move, move.Move) {
+	// two differently initialised Options: a field on which they agree afterwards was set by an option
+	a := search.Options{Depth: -101, Nodes: 1, SoftTime: 1, SoftNodes: 1}
+	b := search.Options{Depth: -102, Nodes: 2, SoftTime: 2, SoftNodes: 2}
+	for _, opt := range opts {
+		opt(&a)
+		opt(&b)
+	}
+	r := goargsRec{depth: "-", nodes: "-", soft: "-", softNodes: "-", ponder: a.PonderHit != nil, stop: a.Stop != nil, out: a.Output != nil, debug: a.Debug}
+	if a.Depth == b.Depth {
+		r.depth, r.depthV, r.depthSet = strconv.Itoa(int(a.Depth)), int(a.Depth), true
+	}
+	if a.Nodes == b.Nodes {
+		r.nodes = strconv.Itoa(a.Nodes)
+	}
+	if a.SoftTime == b.SoftTime {
+		r.soft = strconv.FormatInt(a.SoftTime, 10)
+	}
+	if a.SoftNodes == b.SoftNodes {
+		r.softNodes = strconv.Itoa(a.SoftNodes)
+	}
+	m.ch <- r
+	return 0, move.From(E2) | move.To(E4), 0
+}
+
+func (r *goargsRec) String() string {
+	s := fmt.Sprintf("call depth=%s nodes=%s soft=%s ponder=%s debug=%s stop=%s out=%s", r.depth, r.nodes, r.soft, b01(r.ponder), b01(r.debug), b01(r.stop), b01(r.out))
+	if r.softNodes != "-" {
+		s += " softnodes=" + r.softNodes
+	}
+	return s
+}
+
+type chanWriter struct{ ch chan string }
+
+func (w *chanWriter) Write(b []byte) (int, error) {
+	w.ch <- string(b)
+	return len(b), nil
+}
+
+// goargsSession runs the cases on one driver; impl[i] = observed outcome, note[i] = Go-side assertion failure.
+func goargsSession(cases []goargsCase, impl, note []string) {
+	for len(cases) > 0 {
+		mock := &goargsMock{ch: make(chan goargsRec, 4)}
+		sink := &c14Sink{best: make(chan struct{}, 1)}
+		errw := &chanWriter{ch: make(chan string, 64)}
+		pr, pw := io.Pipe()
+		d := uci.NewDriver(uci.WithInput(pr), uci.WithOutput(sink), uci.WithError(errw), uci.WithSearch(mock))
+		runDone := make(chan struct{})
+		go func() {
+			defer close(runDone)
+			d.Run()
+		}()
+		write := func(l string) {
+			done := make(chan struct{})
+			go func() {
+				pw.Write([]byte(l + "\n"))
+				close(done)
+			}()
+			select {
+			case <-done:
+			case <-time.After(c14Late):
+			}
+		}
+		first, black, ponder, debug := true, false, false, false
+		n := 0
+		wedged := false
+		for i := range cases {
+			c := &cases[i]
+			n++
+			if first || c.black != black {
+				write(map[bool]string{false: "position startpos", true: "position startpos moves e2e4"}[c.black])
+			}
+			if first || c.ponder != ponder {
+				write("setoption name Ponder value " + map[bool]string{false: "false", true: "true"}[c.ponder])
+			}
+			if first || c.debug != debug {
+				write("debug " + map[bool]string{false: "off", true: "on"}[c.debug])
+			}
+			first, black, ponder, debug = false, c.black, c.ponder, c.debug
+			write(c.lex.apply(strings.Join(append([]string{"go"}, c.args...), " ")))
+			select {
+			case r := <-mock.ch:
+				impl[i] = r.String()
+				if r.depthSet && (r.depthV < 1 || r.depthV > MaxPlies) {
+					note[i] = fmt.Sprintf("depth option %d outside [1, %d]", r.depthV, MaxPlies)
+				}
+				select {
+				case <-sink.best: // the interrupt goroutine is gone: the next line goes to the handler
+				case <-time.After(c14Late):
+					impl[i] += " (no bestmove within 3 s)"
+					wedged = true
+				}
+			case e := <-errw.ch:
+				if e == "argument missing\n" {
+					impl[i] = "missing"
+				} else {
+					impl[i] = fmt.Sprintf("stderr %q", e)
+				}
+			case <-time.After(c14Late):
+				impl[i] = "neither a search nor an error message within 3 s"
+				wedged = true
+			}
+			if wedged {
+				break
+			}
+		}
+		write("quit")
+		select {
+		case <-runDone:
+		case <-time.After(c14Late):
+		}
+		pw.Close()
+		pr.Close()
+		cases, impl, note = cases[n:], impl[n:], note[n:]
+	}
+}
+
+func suiteGoargs(ctx *common.Ctx, workers int) {
+	res := common.NewResult(ctx, "uci/goargs", "C06")
+	res.Rule = "a go argument list on which the model's outcome is not the plain default (a value is clamped, unparsable, out of range, overridden by a later occurrence, read from a keyword token, or missing)"
+	var cases []goargsCase
+	// boundary: every number after every keyword, for both colours
+	for _, kw := range goKeywords {
+		for _, n := range goNumbers {
+			c := goargsCase{kind: "boundary", black: len(cases)%2 == 1, ponder: len(cases)%3 == 0, args: []string{kw, n}}
+			if n == "" {
+				c.args = []string{kw}
+			}
+			cases = append(cases, c)
+		}
+	}
+	for k := ctx.Pick(40000, 600000); k > 0; k-- {
+		cases = append(cases, genGoargs(ctx.Rng))
+	}
+	impl := make([]string, len(cases))
+	note := make([]string, len(cases))
+	per := (len(cases) + workers - 1) / workers
+	var wg sync.WaitGroup
+	for w := 0; w < workers; w++ {
+		lo, hi := w*per, min((w+1)*per, len(cases))
+		if lo >= hi {
+			continue
+		}
+		wg.Add(1)
+		go func() {
+			defer wg.Done()
+			goargsSession(cases[lo:hi], impl[lo:hi], note[lo:hi])
+		}()
+	}
+	wg.Wait()
+	var model []string
+	if ctx.Driver != "" {
+		mdl := common.StartModel(ctx.Driver)
+		reqs := make([]string, len(cases))
+		for i := range cases {
+			reqs[i] = cases[i].req()
+		}
+		model = mdl.Batch(reqs)
+		mdl.Close()
+	}
+	reDepth := regexp.MustCompile(`depth=(-?\d+)`)
+	for i := range cases {
+		c := &cases[i]
+		res.Evaluations++
+		res.Count("gen_"+c.kind, 1)
+		res.Count("stm_"+map[bool]string{false: "white", true: "black"}[c.black]+"|Ponder_"+b01(c.ponder), 1)
+		// classes of the observed outcome
+		switch {
+		case impl[i] == "missing":
+			res.Count("outcome_argument_missing", 1)
+		case strings.HasPrefix(impl[i], "call "):
+			res.Count("outcome_call", 1)
+			if m := reDepth.FindStringSubmatch(impl[i]); m != nil {
+				res.Count("depth_option_"+map[bool]string{true: "clamped_or_default_1", false: "other"}[m[1] == "1"]+map[bool]string{true: "|max", false: ""}[m[1] == strconv.Itoa(MaxPlies)], 1)
+			} else {
+				res.Count("depth_option_absent", 1)
+			}
+			for _, f := range []string{"nodes=-", "soft=-", "ponder=1", "debug=1"} {
+				if strings.Contains(impl[i], f) {
+					res.Count("call_with_"+f, 1)
+				}
+			}
+		default:
+			res.Count("outcome_other", 1)
+		}
+		if note[i] != "" {
+			res.Count("go_assert_depth_range", 1)
+			res.Fail(common.Mismatch{Property: "C06", Kind: "failing-input", Ops: c.ops(), Impl: impl[i] + ": " + note[i],
+				Model: "a depth limit handed to the search is at least 1 and at most MaxPlies"})
+			continue
+		}
+		if model == nil {
+			continue
+		}
+		if impl[i] != model[i] {
+			res.Count("model_differs", 1)
+			res.Fail(common.Mismatch{Property: "C06", Kind: "broken-correspondence", Ops: c.ops(), Impl: impl[i], Model: model[i],
+				Note: "request: " + c.req()})
+			continue
+		}
+		res.TracesValidated++
+		if model[i] != "call depth=- nodes=- soft=- ponder=0 debug=0 stop=1 out=1" {
+			res.Nontrivial(c.req())
+		}
+		res.Sample(map[string]any{"ops": c.ops(), "outcome": impl[i]}, 8)
+	}
+	res.Notes = append(res.Notes, fmt.Sprintf("%d boundary + %d random argument lists, %d driver sessions", len(goKeywords)*len(goNumbers), len(cases)-len(goKeywords)*len(goNumbers), workers))
+	res.Write(ctx)
+}
+
 func main() {
 	child := false
 	for _, a := range os.Args[1:] {
@@ -1774,12 +2117,15 @@ func main() {
 	}
 	workers := flag.Int("workers", 6, "parallel child processes")
 	scripts := flag.Int("scripts", 0, "override the number of scripts")
-	suite := flag.String("suite", "c13", "c13: protocol / concurrency sweep (default); c14: hard deadline enforced by the driver")
+	suite := flag.String("suite", "c13", "c13: protocol / concurrency sweep (default); c14: hard deadline enforced by the driver; goargs: go argument parsing vs the Lean model (C06)")
 	ctx := common.Parse()
 	switch *suite {
 	case "c13", "all", "":
 	case "c14":
 		suiteC14(ctx, 8)
+		return
+	case "goargs":
+		suiteGoargs(ctx, 4)
 		return
 	default:
 		fmt.Fprintln(os.Stderr, "unknown suite", *suite)
